@@ -83,7 +83,7 @@ def run_pipes(prop, tier, seed, replay, stages, rule, nontrivial, run=None, fini
         for i, c in enumerate(case_list):
             if i % 40 == 0 and not c.get("invalid"):
                 c2 = dict(c)
-                c2["files"] = ["versatiles", "mbtiles", "pmtiles", "tar"][(i // 40) % 4]
+                c2["files"] = ["versatiles", "mbtiles", "pmtiles", "tar", "directory"][(i // 40) % 5]
                 extra.append(c2)
         case_list += extra
         with open(cases, "w") as f:
